@@ -123,7 +123,7 @@ def main(seed, tier, args):
 
     n = args.cases or (4000 if tier == "quick" else 100000)
     budget = args.budget or (100 if tier == "quick" else 900)
-    conf, problems = conformance(seed, 10 if tier == "quick" else 150)
+    conf, problems = conformance(seed, 24 if tier == "quick" else 200)
     rc, ev = engine.run_batch(__import__("props.c06", fromlist=["x"]), seed, tier, n, budget, extra_evidence=conf)
     if problems:
         for p_ in problems[:5]:
